@@ -5,14 +5,18 @@
 #pragma once
 #include <asmjit/core.h>
 #include <asmjit/x86.h>
+#include <asmjit/a64.h>
 #include <cstdint>
+#if defined(__x86_64__)
+#include <emmintrin.h>
+#endif
 #include <cstring>
 #include <string>
 #include <vector>
 
 namespace c06invoke {
 
-static volatile int64_t g_rec[16];
+static volatile int64_t g_rec[32];
 static volatile int g_cnt;
 
 #define C06_NOINLINE __attribute__((noinline))
@@ -38,6 +42,56 @@ C06_NOINLINE void cb_f64(double a0, double a1, double a2, double a3, double a4, 
   for (int i = 0; i < 12; i++) { int64_t b; memcpy(&b, &v[i], 8); g_rec[i] = b; }
   g_cnt = 12;
 }
+// round 4: float / interleaved int-double / 128-bit vector parameters, and the same set compiled as Win64 functions (ms_abi) on the host
+#define C06_REC12(T, conv) \
+  T v[12] = {a0, a1, a2, a3, a4, a5, a6, a7, a8, a9, a10, a11}; \
+  for (int i = 0; i < 12; i++) { int64_t b = 0; memcpy(&b, (const void*)&v[i], sizeof(T)); g_rec[i] = b; } g_cnt = 12;
+C06_NOINLINE void cb_f32(float a0, float a1, float a2, float a3, float a4, float a5, float a6, float a7, float a8, float a9, float a10, float a11) { C06_REC12(float, 0) }
+C06_NOINLINE void cb_id(int64_t a0, double a1, int64_t a2, double a3, int64_t a4, double a5, int64_t a6, double a7, int64_t a8, double a9, int64_t a10, double a11) {
+  int64_t iv[6] = {a0, a2, a4, a6, a8, a10}; double dv[6] = {a1, a3, a5, a7, a9, a11};
+  for (int i = 0; i < 6; i++) { g_rec[2 * i] = iv[i]; int64_t b; memcpy(&b, &dv[i], 8); g_rec[2 * i + 1] = b; }
+  g_cnt = 12;
+}
+C06_NOINLINE void cb_v128(__m128i a0, __m128i a1, __m128i a2, __m128i a3, __m128i a4, __m128i a5, __m128i a6, __m128i a7, __m128i a8, __m128i a9) {
+  __m128i v[10] = {a0, a1, a2, a3, a4, a5, a6, a7, a8, a9};
+  for (int i = 0; i < 10; i++) { int64_t b[2]; memcpy(b, &v[i], 16); g_rec[2 * i] = b[0]; g_rec[2 * i + 1] = b[1]; }
+  g_cnt = 20;
+}
+C06_NOINLINE void cb_v128x4(__m128i a0, __m128i a1, __m128i a2, __m128i a3) {
+  __m128i v[4] = {a0, a1, a2, a3};
+  for (int i = 0; i < 4; i++) { int64_t b[2]; memcpy(b, &v[i], 16); g_rec[2 * i] = b[0]; g_rec[2 * i + 1] = b[1]; }
+  g_cnt = 8;
+}
+#define C06_MS __attribute__((ms_abi, noinline))
+C06_MS void cbw_v128x4(__m128i a0, __m128i a1, __m128i a2, __m128i a3) {
+  __m128i v[4] = {a0, a1, a2, a3};
+  for (int i = 0; i < 4; i++) { int64_t b[2]; memcpy(b, &v[i], 16); g_rec[2 * i] = b[0]; g_rec[2 * i + 1] = b[1]; }
+  g_cnt = 8;
+}
+C06_MS void cbw_i64(int64_t a0, int64_t a1, int64_t a2, int64_t a3, int64_t a4, int64_t a5, int64_t a6, int64_t a7, int64_t a8, int64_t a9, int64_t a10, int64_t a11) { C06_REC12(int64_t, 1) }
+C06_MS void cbw_i32(int32_t a0, int32_t a1, int32_t a2, int32_t a3, int32_t a4, int32_t a5, int32_t a6, int32_t a7, int32_t a8, int32_t a9, int32_t a10, int32_t a11) {
+  int32_t v[12] = {a0, a1, a2, a3, a4, a5, a6, a7, a8, a9, a10, a11};
+  for (int i = 0; i < 12; i++) g_rec[i] = v[i];
+  g_cnt = 12;
+}
+C06_MS void cbw_mix(uint8_t a0, int8_t a1, uint16_t a2, int16_t a3, uint32_t a4, int32_t a5, uint64_t a6, int64_t a7,
+                    uint8_t b0, int8_t b1, uint16_t b2, int16_t b3, uint32_t b4, int32_t b5, uint64_t b6, int64_t b7) {
+  g_rec[0] = a0; g_rec[1] = a1; g_rec[2] = a2; g_rec[3] = a3; g_rec[4] = a4; g_rec[5] = a5; g_rec[6] = int64_t(a6); g_rec[7] = a7;
+  g_rec[8] = b0; g_rec[9] = b1; g_rec[10] = b2; g_rec[11] = b3; g_rec[12] = b4; g_rec[13] = b5; g_rec[14] = int64_t(b6); g_rec[15] = b7;
+  g_cnt = 16;
+}
+C06_MS void cbw_f64(double a0, double a1, double a2, double a3, double a4, double a5, double a6, double a7, double a8, double a9, double a10, double a11) { C06_REC12(double, 1) }
+C06_MS void cbw_f32(float a0, float a1, float a2, float a3, float a4, float a5, float a6, float a7, float a8, float a9, float a10, float a11) { C06_REC12(float, 1) }
+C06_MS void cbw_id(int64_t a0, double a1, int64_t a2, double a3, int64_t a4, double a5, int64_t a6, double a7, int64_t a8, double a9, int64_t a10, double a11) {
+  int64_t iv[6] = {a0, a2, a4, a6, a8, a10}; double dv[6] = {a1, a3, a5, a7, a9, a11};
+  for (int i = 0; i < 6; i++) { g_rec[2 * i] = iv[i]; int64_t b; memcpy(&b, &dv[i], 8); g_rec[2 * i + 1] = b; }
+  g_cnt = 12;
+}
+C06_MS void cbw_v128(__m128i a0, __m128i a1, __m128i a2, __m128i a3, __m128i a4, __m128i a5, __m128i a6, __m128i a7, __m128i a8, __m128i a9) {
+  __m128i v[10] = {a0, a1, a2, a3, a4, a5, a6, a7, a8, a9};
+  for (int i = 0; i < 10; i++) { int64_t b[2]; memcpy(b, &v[i], 16); g_rec[2 * i] = b[0]; g_rec[2 * i + 1] = b[1]; }
+  g_cnt = 20;
+}
 }
 
 static const asmjit::TypeId kMix[16] = {
@@ -45,13 +99,18 @@ static const asmjit::TypeId kMix[16] = {
   asmjit::TypeId::kUInt64, asmjit::TypeId::kInt64, asmjit::TypeId::kUInt8, asmjit::TypeId::kInt8, asmjit::TypeId::kUInt16, asmjit::TypeId::kInt16,
   asmjit::TypeId::kUInt32, asmjit::TypeId::kInt32, asmjit::TypeId::kUInt64, asmjit::TypeId::kInt64 };
 
-// kind: 0 int64 x12, 1 int32 x12, 2 mixed x16, 3 double x12.  mode[i]: 0 immediate, 1 virtual register.  Returns "" on success (g_rec filled) else an error text.
-static inline std::string run(int kind, const std::vector<int>& mode, const std::vector<int64_t>& val) {
+// kind: 0 int64 x12, 1 int32 x12, 2 mixed x16, 3 double x12, 4 float x12, 5 (int64, double) x6, 6 __m128i x10 (value i = {val, ~val}), 7 __m128i x4;
+// + 16: the callee is a Win64 function (CallConvId::kX64Windows, compiled with __attribute__((ms_abi))).
+// mode[i]: 0 immediate, 1 virtual register.  Returns "" on success (g_rec filled) else an error text.
+static inline std::string run(int kind_, const std::vector<int>& mode, const std::vector<int64_t>& val) {
+  int win = kind_ >= 16 ? 1 : 0;
+  int kind = kind_ & 15;
   using namespace asmjit;
 #if !defined(__x86_64__)
   return "host";
 #else
-  uint32_t n = kind == 2 ? 16u : 12u;
+  if (kind > 7) return "kind";
+  uint32_t n = kind == 2 ? 16u : kind == 6 ? 10u : kind == 7 ? 4u : 12u;
   if (mode.size() < n || val.size() < n) return "args";
   JitRuntime rt;
   CodeHolder code;
@@ -60,19 +119,40 @@ static inline std::string run(int kind, const std::vector<int>& mode, const std:
   cc.add_func(FuncSignature::build<void>());
 
   FuncSignature sig;
-  sig.set_call_conv_id(CallConvId::kCDecl);
+  sig.set_call_conv_id(win ? CallConvId::kX64Windows : CallConvId::kCDecl);
   sig.set_ret(TypeId::kVoid);
   std::vector<TypeId> ty(n);
   for (uint32_t i = 0; i < n; i++) {
-    ty[i] = kind == 0 ? TypeId::kInt64 : kind == 1 ? TypeId::kInt32 : kind == 2 ? kMix[i] : TypeId::kFloat64;
+    ty[i] = kind == 0 ? TypeId::kInt64 : kind == 1 ? TypeId::kInt32 : kind == 2 ? kMix[i] : kind == 3 ? TypeId::kFloat64 : kind == 4 ? TypeId::kFloat32
+          : kind == 5 ? ((i & 1) ? TypeId::kFloat64 : TypeId::kInt64) : TypeId::kInt64x2;
     sig.add_arg(ty[i]);
   }
-  uint64_t target = kind == 0 ? uint64_t(uintptr_t(&cb_i64)) : kind == 1 ? uint64_t(uintptr_t(&cb_i32)) : kind == 2 ? uint64_t(uintptr_t(&cb_mix)) : uint64_t(uintptr_t(&cb_f64));
+  const void* sysv[8] = {(const void*)&cb_i64, (const void*)&cb_i32, (const void*)&cb_mix, (const void*)&cb_f64, (const void*)&cb_f32, (const void*)&cb_id, (const void*)&cb_v128, (const void*)&cb_v128x4};
+  const void* ms[8] = {(const void*)&cbw_i64, (const void*)&cbw_i32, (const void*)&cbw_mix, (const void*)&cbw_f64, (const void*)&cbw_f32, (const void*)&cbw_id, (const void*)&cbw_v128, (const void*)&cbw_v128x4};
+  uint64_t target = uint64_t(uintptr_t(win ? ms[kind] : sysv[kind]));
 
   std::vector<Reg> regs(n);
   for (uint32_t i = 0; i < n; i++) {
     if (mode[i] != 1) continue;
-    if (kind == 3) {
+    if (kind == 6 || kind == 7) {
+      x86::Gp t = cc.new_gp64();
+      x86::Vec x = cc.new_xmm();
+      x86::Vec y = cc.new_xmm();
+      cc.mov(t, Imm(val[i]));
+      cc.movq(x, t);
+      cc.mov(t, Imm(~val[i]));
+      cc.movq(y, t);
+      cc.punpcklqdq(x, y);
+      regs[i] = x;
+    }
+    else if (kind == 4) {
+      x86::Gp t = cc.new_gp32();
+      x86::Vec x = cc.new_xmm_ss();
+      cc.mov(t, Imm(int64_t(int32_t(uint32_t(uint64_t(val[i]))))));
+      cc.movd(x, t);
+      regs[i] = x;
+    }
+    else if (kind == 3 || (kind == 5 && (i & 1))) {
       x86::Gp t = cc.new_gp64();
       x86::Vec x = cc.new_xmm_sd();
       cc.mov(t, Imm(val[i]));
@@ -94,6 +174,7 @@ static inline std::string run(int kind, const std::vector<int>& mode, const std:
   Error e = cc.invoke(Out<InvokeNode*>(inv), target, sig);
   if (e != Error::kOk || !inv) return "invoke";
   for (uint32_t i = 0; i < n; i++) {
+    if (mode[i] == 2) continue;          // argument left unassigned (the callee receives whatever is there)
     if (mode[i] == 1) inv->set_arg(i, regs[i]);
     else inv->set_arg(i, Imm(val[i]));
   }
@@ -104,12 +185,72 @@ static inline std::string run(int kind, const std::vector<int>& mode, const std:
   typedef void (*Fn)();
   Fn fn = nullptr;
   if (rt.add(&fn, &code) != Error::kOk || !fn) return "add";
-  for (int i = 0; i < 16; i++) g_rec[i] = 0x5A5A5A5A;
+  for (int i = 0; i < 32; i++) g_rec[i] = 0x5A5A5A5A;
   g_cnt = 0;
   fn();
   rt.release(fn);
   return "";
 #endif
+}
+
+// round 4 (e): AArch64 call sites.  The same caller built with a64::Compiler for an AArch64 target (AAPCS64 or Apple); nothing is executed:
+// the assembled bytes are returned and a byte-level simulator (tools/c06_a64call.py) runs them up to the BLR and inspects x0-x7 / d0-d7 / [sp].
+// kind: 0 int64 x12, 1 int32 x12, 2 mixed x16, 3 double x12.
+static inline std::string run_a64(int kind, const asmjit::Environment& env, const std::vector<int>& mode, const std::vector<int64_t>& val, std::string& hex) {
+  using namespace asmjit;
+  if (kind > 3) return "kind";
+  uint32_t n = kind == 2 ? 16u : 12u;
+  if (mode.size() < n || val.size() < n) return "args";
+  CodeHolder code;
+  if (code.init(env) != Error::kOk) return "init";
+  a64::Compiler cc(&code);
+  cc.add_func(FuncSignature::build<void>());
+  FuncSignature sig;
+  sig.set_call_conv_id(CallConvId::kCDecl);
+  sig.set_ret(TypeId::kVoid);
+  std::vector<TypeId> ty(n);
+  for (uint32_t i = 0; i < n; i++) {
+    ty[i] = kind == 0 ? TypeId::kInt64 : kind == 1 ? TypeId::kInt32 : kind == 2 ? kMix[i] : TypeId::kFloat64;
+    sig.add_arg(ty[i]);
+  }
+  std::vector<Reg> regs(n);
+  for (uint32_t i = 0; i < n; i++) {
+    if (mode[i] != 1) continue;
+    if (kind == 3) {
+      a64::Gp t = cc.new_gp64();
+      a64::Vec d = cc.new_vec_d();
+      cc.mov(t, Imm(val[i]));
+      cc.fmov(d, t);
+      regs[i] = d;
+    }
+    else if (TypeUtils::size_of(ty[i]) == 8) {
+      a64::Gp r = cc.new_gp64();
+      cc.mov(r, Imm(val[i]));
+      regs[i] = r;
+    }
+    else {
+      a64::Gp r = cc.new_gp32();
+      cc.mov(r, Imm(int64_t(uint32_t(uint64_t(val[i])))));
+      regs[i] = r;
+    }
+  }
+  InvokeNode* inv = nullptr;
+  a64::Gp tgt = cc.new_gp64();
+  cc.mov(tgt, Imm(0x7A7A0000ull));
+  Error e = cc.invoke(Out<InvokeNode*>(inv), tgt, sig);
+  if (e != Error::kOk || !inv) return "invoke";
+  for (uint32_t i = 0; i < n; i++) {
+    if (mode[i] == 1) inv->set_arg(i, regs[i]);
+    else inv->set_arg(i, Imm(val[i]));
+  }
+  cc.ret();
+  cc.end_func();
+  e = cc.finalize();
+  if (e != Error::kOk) { char b[32]; snprintf(b, sizeof(b), "finalize%u", unsigned(e)); return b; }
+  Section* text = code.text_section();
+  const uint8_t* d = text->data();
+  for (size_t i = 0; i < text->buffer_size(); i++) { char hx[4]; snprintf(hx, sizeof(hx), "%02x", d[i]); hex += hx; }
+  return "";
 }
 
 } // namespace c06invoke
